@@ -6,6 +6,7 @@ import (
 	"database/sql"
 	"encoding/json"
 	"fmt"
+	"math"
 	"strings"
 	"sync"
 	"testing"
@@ -38,6 +39,9 @@ type Step struct {
 	Fault  int    `json:"fault,omitempty"` // k>0: the k-th statement reaching the database during this step fails
 	// Race: a second delivery (same branch) runs concurrently with this one
 	Race string `json:"race,omitempty"`
+	// RaceAt k>0: the harness owns the interleaving of the race: this delivery is parked before its k-th
+	// statement, the racing delivery then runs until it returns (or gives up on a row lock), then this one continues
+	RaceAt int `json:"race_at,omitempty"`
 	// BizFail: the business statement of this delivery fails (the participant rolls its transaction back)
 	BizFail bool `json:"biz_fail,omitempty"`
 }
@@ -47,6 +51,8 @@ type Case struct {
 	Steps []Step `json:"steps"`
 	// SameCtx: all deliveries of a branch reuse one seata context object (a retry loop of the caller)
 	SameCtx bool `json:"same_ctx,omitempty"`
+	// IDKind: which branch ids the two branches carry: 0 = 7000+b, 1 = b (0 and 1), 2 = negative, 3 = close to MaxInt64
+	IDKind int `json:"id_kind,omitempty"`
 }
 
 type model struct {
@@ -110,7 +116,19 @@ func column(p string) string {
 
 const xid = "10.0.0.9:8091:4711"
 
-func branchID(b int) int64 { return int64(7000 + b) }
+var idKind int
+
+func branchID(b int) int64 {
+	switch idKind {
+	case 1:
+		return int64(b)
+	case 2:
+		return -int64(b) - 1
+	case 3:
+		return math.MaxInt64 - int64(b)
+	}
+	return int64(7000 + b)
+}
 
 // deliver runs one phase for one branch the way a TCC participant does.
 var sharedCtx = map[int]context.Context{}
@@ -199,6 +217,7 @@ func runCase(c Case) *pt.Failure {
 			}
 		}
 		models := []model{{}, {}}
+		idKind = c.IDKind
 		sharedCtx = map[int]context.Context{}
 		var hist []string
 		last.interesting = false
@@ -221,7 +240,29 @@ func runCase(c Case) *pt.Failure {
 				env.Srv.AddFault(f)
 			}
 			var err, err2 error
-			if st.Race != "" {
+			if st.Race != "" && st.RaceAt > 0 {
+				n := 0
+				p := &memsql.Pause{Once: true, Hit: make(chan memsql.Entry, 1), Release: make(chan struct{}), Match: func(e *memsql.Entry) bool {
+					if e.Kind == "CONNECT" || e.Kind == "CLOSE" {
+						return false
+					}
+					n++
+					return n == st.RaceAt
+				}}
+				env.Srv.AddPause(p)
+				done1 := make(chan struct{})
+				go func() { defer close(done1); err = deliver(c.Mode, st.Branch, st.Phase, false) }()
+				select {
+				case <-p.Hit:
+					err2 = deliver(c.Mode, st.Branch, st.Race, false)
+					close(p.Release)
+					<-done1
+				case <-done1:
+					// the first delivery issued fewer statements: the second simply follows it
+					env.Srv.ClearFaults()
+					err2 = deliver(c.Mode, st.Branch, st.Race, false)
+				}
+			} else if st.Race != "" {
 				var wg sync.WaitGroup
 				wg.Add(2)
 				go func() { defer wg.Done(); err = deliver(c.Mode, st.Branch, st.Phase, false) }()
@@ -237,6 +278,9 @@ func runCase(c Case) *pt.Failure {
 			desc := fmt.Sprintf("step %d: %s(branch %d)", i, st.Phase, st.Branch)
 			if st.Race != "" {
 				desc += " ∥ " + st.Race
+				if st.RaceAt > 0 {
+					desc += fmt.Sprintf(" (first parked before its statement %d while the second runs)", st.RaceAt)
+				}
 			}
 			if st.Fault > 0 {
 				desc += fmt.Sprintf(" with a failure at statement %d (fired=%v)", st.Fault, fired)
@@ -289,12 +333,24 @@ func runCase(c Case) *pt.Failure {
 			} else {
 				// two concurrent deliveries: any serial order, each delivery either applied or failed (a
 				// concurrent delivery may time out on the row lock or lose a duplicate-key race)
-				for _, order := range [][2]string{{st.Phase, st.Race}, {st.Race, st.Phase}} {
+				// Without an injected failure the return value is tied to the outcome: a delivery that
+				// returned nil was applied (possibly as a permitted no-op), one that returned an error changed nothing.
+				strict := st.Fault == 0 && !st.BizFail
+				for oi, order := range [][2]string{{st.Phase, st.Race}, {st.Race, st.Phase}} {
+					errs := [2]error{err, err2}
+					if oi == 1 {
+						errs = [2]error{err2, err}
+					}
 					for mask := 0; mask < 4; mask++ {
 						cur := m
 						okAll := true
 						for j, ph := range order {
-							if mask&(1<<j) != 0 {
+							failed := mask&(1<<j) != 0
+							if strict && failed != (errs[j] != nil) {
+								okAll = false
+								break
+							}
+							if failed {
 								continue // this delivery failed: no change
 							}
 							nx, ok := cur.apply(ph)
@@ -364,6 +420,9 @@ func faultTag(st Step) string {
 }
 
 func raceTag(st Step) string {
+	if st.Race != "" && st.RaceAt > 0 {
+		return fmt.Sprintf("/race-%s-at-%d", st.Race, st.RaceAt)
+	}
 	if st.Race != "" {
 		return "/race-" + st.Race
 	}
@@ -401,24 +460,27 @@ func prop(mode string) func(rt *rapid.T) {
 				st.Fault = rapid.IntRange(1, 8).Draw(rt, "fault")
 			case 1:
 				st.Race = rapid.SampledFrom([]string{"prepare", "commit", "rollback"}).Draw(rt, "race")
+				st.RaceAt = rapid.SampledFrom([]int{0, 2, 3, 4, 5}).Draw(rt, "raceAt")
 			case 2:
 				st.BizFail = true
 			}
 			c.Steps = append(c.Steps, st)
 		}
 		c.SameCtx = rapid.IntRange(0, 3).Draw(rt, "sameCtx") == 0
+		c.IDKind = rapid.SampledFrom([]int{0, 0, 0, 1, 2, 3}).Draw(rt, "idKind")
 		fl := runCase(c)
 		var sh []string
 		for _, st := range c.Steps {
 			sh = append(sh, fmt.Sprintf("%s%d%s%s%v", st.Phase[:1], st.Branch, faultTag(st), raceTag(st), st.BizFail))
 		}
-		sh = append(sh, fmt.Sprint(c.SameCtx))
+		sh = append(sh, fmt.Sprint(c.SameCtx, c.IDKind))
 		ctx.Rec.Case(mode, last.interesting, mode+"|"+strings.Join(sh, ","), c, "mode:"+mode)
 		ctx.Judge(rt, mode, fl, c)
 	}
 }
 
-func TestPropFenceAPI(t *testing.T)    { ctx.Check(t, prop("api")) }
+func TestPropFenceAPI(t *testing.T) { ctx.Check(t, prop("api")) }
+
 // The fence driver keeps record and business effect in two transactions and cannot skip the business
 // code (known finding C06-K1): while that finding is active only its legal, duplicate-free, fault-free
 // deliveries are generated; everything else is counted as excluded.
